@@ -23,7 +23,7 @@ package tokenizers
 //@ interface ITokenizerState.NextToken(self, scanner, tokenizer)
 //@   requires self != nil && isScanner(scanner) && sc(scanner).position + 1 < len(sc(scanner).content)
 //@   requires forall i int :: 0 <= i && i < len(sc(scanner).content) ==> scalar(sc(scanner).content[i])
-//@   ensures[C04,C12] result != nil && isScanner(scanner) && sc(scanner).content == old(sc(scanner).content)
+//@   ensures[C04,C12] result != nil && isScanner(scanner) && sc(scanner).content == old(sc(scanner).content) && result.typ != Eof
 //@   ensures[C04] spans(result.value, scanner, old(cur(scanner)), cur(scanner))
 //@   ensures[C12] result.line == L(seq(sc(scanner).content), old(cur(scanner))) && result.column == C(seq(sc(scanner).content), old(cur(scanner)))
 //@   assigns sc(scanner).position, sc(scanner).line, sc(scanner).column
@@ -61,3 +61,41 @@ package tokenizers
 //@   ensures result == symState(self)
 //@   assigns nothing
 //@   nopanic
+
+// ---- AbstractTokenizer.ReadNextToken: options only drop or rewrite whole tokens (C15, C04, C12, C03) ----------
+//@ interface IQuoteState.DecodeString(self, value, quoteSymbol)
+//@   requires self != nil
+//@   assigns nothing
+//@   nopanic
+//
+//@ pred tokInv(c *AbstractTokenizer) = c != nil && mapInv(c.mp) && (c.decodeStrings ==> c.quoteState != nil) &&
+//@     (c.Scanner != nil ==> isScanner(c.Scanner) &&
+//@         (forall i int :: 0 <= i && i < len(sc(c.Scanner).content) ==> scalar(sc(c.Scanner).content[i])))
+//
+// atheader(0, cur(..)) is the cursor at which the state that produced the returned token was entered
+//@ func (c *AbstractTokenizer) ReadNextToken
+//@   requires tokInv(c)
+//@   ensures[C03] c.Scanner == nil ==> result == nil
+//@   ensures[C15] c.Scanner != nil ==> c.LastTokenType == (result == nil ? Eof : result.typ)
+//@   ensures[C12] result != nil && result.typ != Eof ==>
+//@       result.line == L(seq(sc(c.Scanner).content), atheader(0, cur(c.Scanner))) && result.column == C(seq(sc(c.Scanner).content), atheader(0, cur(c.Scanner)))
+//@   ensures[C12] result != nil && result.typ == Eof ==>
+//@       result.line == L(seq(sc(c.Scanner).content), len(sc(c.Scanner).content)) && result.column == C(seq(sc(c.Scanner).content), len(sc(c.Scanner).content))
+//@   ensures[C04,C15] result != nil && result.typ != Eof && !c.decodeStrings && !c.mergeWhitespaces ==>
+//@       spans(result.value, c.Scanner, atheader(0, cur(c.Scanner)), cur(c.Scanner))
+//@   ensures[C04] result != nil && result.typ != Eof ==> cur(c.Scanner) > atheader(0, cur(c.Scanner))
+//@   ensures[C04] c.Scanner != nil && (result == nil || result.typ == Eof) ==> cur(c.Scanner) == len(sc(c.Scanner).content)
+//@   ensures[C15] c.skipUnknown && result != nil ==> result.typ != Unknown
+//@   ensures[C15] c.skipComments && result != nil ==> result.typ != Comment
+//@   ensures[C15] c.skipEof && result != nil ==> result.typ != Eof
+//@   ensures[C15] c.skipWhitespaces && old(c.LastTokenType) == Whitespace && result != nil ==> result.typ != Whitespace
+//@   ensures[C15] c.mergeWhitespaces && result != nil && result.typ == Whitespace ==> rlen(result.value) == 1 && result.value[0] == 32
+//@   ensures[C15] c.unifyNumbers && result != nil ==> result.typ != Integer && result.typ != Float && result.typ != HexDecimal
+//@   assigns c.LastTokenType, sc(c.Scanner).position, sc(c.Scanner).line, sc(c.Scanner).column
+//@   nopanic
+//@   callsite[C12] NewToken requires typ == Eof ||
+//@       (line == L(seq(sc(c.Scanner).content), atheader(0, cur(c.Scanner))) && column == C(seq(sc(c.Scanner).content), atheader(0, cur(c.Scanner))))
+//@   loop 0
+//@     invariant tokInv(c) && c.Scanner != nil && c.Scanner == old(c.Scanner) && sc(c.Scanner).content == old(sc(c.Scanner).content)
+//@     invariant old(cur(c.Scanner)) <= cur(c.Scanner)
+//@     decreases len(sc(c.Scanner).content) - cur(c.Scanner)
